@@ -216,7 +216,7 @@ def short(x, n=70):
 
 
 def plan(tier, seed):
-    n = 64 if tier == 'quick' else 1600
+    n = 64 if tier == 'quick' else 480
     return [{'n': b - a, 'shard': i, 'seed': seed} for i, (a, b) in enumerate(split_range(n, 16))]
 
 
